@@ -147,19 +147,24 @@ Proof.
 Qed.
 
 (* small-size regime (either variant) and both regimes together *)
-Lemma lincomb_small_clean (g : bool) (a b : R) (d1 d2 : list R) :
+Lemma lincomb_small_clean (g : small_variant) (a b : R) (d1 d2 : list R) :
   length d1 = length d2 ->
   lincomb_small g (Some a) (Some b) (cl d1) (cl d2) (length d1) = cl (rlin a b d1 d2).
 Proof.
   intros L. unfold lincomb_small, rlin. destruct g.
+  - unfold vlin. apply vmap2_cl. reflexivity.
+  - numO. destruct (Reqb_spec a 0) as [Ea|Ea], (Reqb_spec b 0) as [Eb|Eb]; numO; try subst a; try subst b.
+    + rewrite zeros_cl. f_equal. apply repeat_vmap2; [exact L | intros; lra].
+    + unfold vlin. apply vmap2_cl. reflexivity.
+    + unfold vlin. apply vmap2_cl. reflexivity.
+    + unfold vlin. apply vmap2_cl. reflexivity.
   - numO. destruct (Reqb_spec a 0) as [Ea|Ea], (Reqb_spec b 0) as [Eb|Eb]; numO; try subst a; try subst b.
     + rewrite zeros_cl. f_equal. apply repeat_vmap2; [exact L | intros; lra].
     + rewrite (map_cl _ (fun v => b * v)) by reflexivity. f_equal. apply map_vmap2_r; [exact L | intros; lra].
     + rewrite (map_cl _ (fun u => a * u)) by reflexivity. f_equal. apply map_vmap2_l; [exact L | intros; lra].
     + unfold vlin. apply vmap2_cl. reflexivity.
-  - unfold vlin. apply vmap2_cl. reflexivity.
 Qed.
-Lemma lincomb_data_clean (g : bool) (a b : R) (d1 d2 : list R) (dold : list VR) (o1 o2 e12 : bool) :
+Lemma lincomb_data_clean (g : small_variant) (a b : R) (d1 d2 : list R) (dold : list VR) (o1 o2 e12 : bool) :
   length d1 = length d2 -> length dold = length d1 ->
   (o1 = true -> dold = cl d1) -> (o2 = true -> dold = cl d2) -> (e12 = true -> d1 = d2) ->
   lincomb_data_g g (Some a) (Some b) (cl d1) (cl d2) dold o1 o2 e12 = cl (rlin a b d1 d2).
@@ -280,7 +285,7 @@ Lemma ext_rd s s' m i c : ext s s' m -> rd s i = Some c -> ~ In i m -> rd s' i =
 Proof. intros (L & U & S) E N. rewrite U; auto. eapply rd_lt; eassumption. Qed.
 
 (* ---------------------------------------------- primitives on clean operands *)
-Lemma do_lincomb_g_clean (g : bool) (a b : R) i1 i2 o (s : storeR) sp d1 d2 dold :
+Lemma do_lincomb_g_clean (g : small_variant) (a b : R) i1 i2 o (s : storeR) sp d1 d2 dold :
   wf_store s ->
   rd s i1 = Some (sp, cl d1) -> rd s i2 = Some (sp, cl d2) -> rd s o = Some (sp, dold) ->
   do_lincomb_g g (Some a) i1 (Some b) i2 o s = Ok tt (upd s o (sp, cl (rlin a b d1 d2))).
